@@ -110,7 +110,7 @@ LEAK_ALL = leak("LK", (), 54, all_fns=True)
 LEAK_SCOPED = leak("R3", ("ACQ-SCOPED",), 26)
 
 prop("C01",
-     [cg.rule_L1, sem.rule_L2, st.rule_L4, st.rule_E1, sig.rule_O1, sig.rule_O3, st.rule_N5, ts.rule_SD, ts2.rule_K1, cg.rule_K2, ts2.rule_R5, ts2.rule_R3key, ts2.rule_R1, ts2.rule_R7,
+     [cg.rule_L1, sem.rule_L2, st.rule_L4, sem.rule_E2, st.rule_E1, sig.rule_O1, sig.rule_O3, st.rule_N5, ts.rule_SD, ts2.rule_K1, cg.rule_K2, ts2.rule_R5, ts2.rule_R3key, ts2.rule_R1, ts2.rule_R7,
       A("rule_Y1"), A("rule_Y2")],
      "Premises of the Havender/Coffman argument, each a necessary condition visible in the code: L1 every safe function that can "
      "reach a blocking raw acquisition takes the key by value (call graph); L2 sorting collections cache get_ptrs(data) sorted "
